@@ -51,7 +51,8 @@ def primitives(repo: Repo, chk: Check) -> None:
         d = t.cast(ast.Call, dec[0].tree)
         okc = ps.text(recv_of(d)) == "AESGCM(cek)"
         chk.ob("O1", Site.of(cd, dec[0].node), okc, "cipher = AESGCM(cek)" if okc else f"the decrypting object is {ps.text(recv_of(d))}, not AESGCM(<cek parameter>)")
-        a = [ps.text(x) for x in d.args] + [f"{k.arg}={ps.text(k.value)}" for k in d.keywords]
+        da = ev_args(repo, cd, dec[0])
+        a = [ps.text(da[k]) for k in ("nonce", "data", "associated_data") if k in da]
         oka = len(a) == 3 and a[1] == "value" and a[2] == "None"
         chk.ob("O1", Site.of(cd, dec[0].node), oka, "the whole value (ciphertext || tag) is verified and decrypted, no associated data" if oka else f"decrypt arguments are {a}: the data must be the unmodified 'value' parameter")
         okn = len(a) == 3 and a[0] == "ASN1Reader(parameters).read_sequence().read_octet_string()"
@@ -69,7 +70,7 @@ def primitives(repo: Repo, chk: Check) -> None:
     sk = Summary(kd, ["algorithm", "parameters", "kek", "value"])
     for ps in sk.returning():
         un = ps.calls("aes_key_unwrap")
-        oku = len(un) == 1 and [ps.text(x) for x in t.cast(ast.Call, un[0].tree).args] == ["kek", "value"]
+        oku = len(un) == 1 and [ps.text(x) for x in ev_args(repo, kd, un[0]).values()] == ["kek", "value"]
         chk.ob("O1", Site.of(kd, un[0].node if un else None, None if un else "aes_key_unwrap"), oku, "CEK = aes_key_unwrap(kek, whole wrapped key)" if oku else "cek_decrypt does not unwrap the whole value with the KEK")
         chk.ob("O3", Site.of(kd, ps.exit_node, None if ps.exit_node is not None else "return"), bool(un) and ps.key(ps.value) == ps.key(un[0].tree), "returns the unwrapped key")
     # _decrypt_blob wiring
